@@ -68,6 +68,8 @@ def main():
         'engines': [
             {'name': 'engine', 'path': 'harness/engine', 'serves_properties': sorted(p for p, e in engines_of.items() if e == 'engine'),
              'kind_free_text': 'model-based stateful property-testing engine (proptest TestRunner on 16 workers; generated type pools per registry in harness/regs/*)'},
+            {'name': 'sched', 'path': 'harness/sched + harness/schedbins/*', 'serves_properties': sorted(p for p, e in engines_of.items() if e == 'sched'),
+             'kind_free_text': 'generated schedule pools compiled as many small binaries; proptest world contents; deterministic fork/join driver through the cfg(brood_verif) hook; real rayon pools'},
         ],
         'checks': [],
         'not_applicable': [{'property_id': p, 'reason': r} for p, r in sorted(not_yet.items())],
